@@ -19,7 +19,11 @@ rows, cols = cfg["rows"], cfg["cols"]
 rng = np.random.default_rng(cfg.get("seed", 0))
 path = cfg["path"]
 if not os.path.exists(path):
-    fits.PrimaryHDU(rng.normal(size=(rows, cols)).astype(np.float32)).writeto(path)
+    img = rng.normal(size=(rows, cols)).astype(np.float32)
+    nr = cfg.get("nan_rows")
+    if nr:
+        img[nr[0]:nr[1], 3:9] = np.nan          # blank pixels in some stripes only
+    fits.PrimaryHDU(img).writeto(path)
 fail = cfg.get("fail_stripe")
 if fail is not None:
     real = BANE.sigma_filter
@@ -70,7 +74,8 @@ def leaked(memory_id):
 
 def config_failures(cfg, tmp):
     out = []
-    cfg = dict(cfg, path=os.path.join(tmp, "im_%d_%d.fits" % (cfg["rows"], cfg["cols"])), out=os.path.join(tmp, "o.npy"))
+    tag = "_nan%d_%d" % tuple(cfg["nan_rows"]) if cfg.get("nan_rows") else ""
+    cfg = dict(cfg, path=os.path.join(tmp, "im_%d_%d%s.fits" % (cfg["rows"], cfg["cols"], tag)), out=os.path.join(tmp, "o.npy"))
     r = run_cfg(cfg)
     if r.get("hang"):
         subprocess.run("pkill -f 'AegeanTools import BANE' ; rm -f /dev/shm/ibkg_* /dev/shm/irms_*", shell=True, capture_output=True)
@@ -94,7 +99,8 @@ def config_failures(cfg, tmp):
     if r.get("raised"):
         out.append(("no_exception", "raised %s" % r["raised"]))
         return out, None
-    if r["finite_bkg"] != r["size"] or r["finite_rms"] != r["size"] or r["zero_rows"]:
+    nblank = (cfg["nan_rows"][1] - cfg["nan_rows"][0]) * 6 if cfg.get("nan_rows") else 0
+    if r["finite_bkg"] != r["size"] - nblank or r["finite_rms"] != r["size"] - nblank or r["zero_rows"]:
         out.append(("stripes.tile_the_rows", "not every output pixel was written (%d/%d finite, %d all-zero rows)" % (
             r["finite_rms"], r["size"], r["zero_rows"])))
     return out, cfg["out"]
@@ -106,7 +112,13 @@ def crosscheck(p):
     failures, seen, evals = [], set(), 0
     cfgs = [dict(rows=100, cols=40, grid=10, box=30, cores=2, stripes=2), dict(rows=100, cols=40, grid=10, box=30, cores=2, stripes=4),
             dict(rows=100, cols=40, grid=10, box=30, cores=4, stripes=3), dict(rows=3, cols=8, grid=1, box=4, cores=2, stripes=2),
-            dict(rows=60, cols=30, grid=7, box=21, cores=1, stripes=1), dict(rows=100, cols=40, grid=10, box=30, cores=3, stripes=3)]
+            dict(rows=60, cols=30, grid=7, box=21, cores=1, stripes=1), dict(rows=100, cols=40, grid=10, box=30, cores=3, stripes=3),
+            # blank pixels in one stripe only / in the middle stripe only (masking on): every worker must still take part in every barrier
+            dict(rows=100, cols=40, grid=10, box=30, cores=2, stripes=2, nan_rows=[60, 70]),
+            dict(rows=120, cols=40, grid=10, box=30, cores=3, stripes=3, nan_rows=[50, 58]),
+            # layouts whose last stripe is a sliver
+            dict(rows=100, cols=40, grid=8, box=24, cores=3, stripes=3), dict(rows=130, cols=40, grid=16, box=48, cores=4, stripes=4),
+            dict(rows=75, cols=40, grid=12, box=36, cores=2, stripes=2)]
     if p.get("tier") == "thorough":
         cfgs += [dict(rows=r, cols=24, grid=g, box=3 * g, cores=c, stripes=s) for r in (17, 64, 101) for g in (4, 9)
                  for c in (1, 2, 5) for s in (1, 2, 7, 10)]
